@@ -103,7 +103,7 @@ impl Sink {
                 self.raw.push(io.clone());
             }
             match io {
-                Io::Write { off, data, flen_after, short } => {
+                Io::Write { off, data, flen_after, flen_before, short } => {
                     let ps = self.pagesize.max(1);
                     let aligned = off % ps == 0;
                     // header pages are written one page at a time, except by init_file, which
@@ -133,7 +133,8 @@ impl Sink {
                         }
                         let mut ev = json!({"ev":"write","wi":wi,"page":page,"aligned":aligned,"len":data.len(),
                                             "n": (data.len() as u64 + ps - 1) / ps, "flen": flen_after / ps,
-                                            "flenb": flen_after, "short": short});
+                                            "flenb": flen_after, "short": short,
+                                            "fits": off + data.len() as u64 <= flen_before});
                         if page < 2 && aligned {
                             ev["kind"] = json!("meta");
                             match parse::decode_meta(data) {
